@@ -390,7 +390,7 @@ def cc_part(ctx, d):
     the proved model, so only the safety predicates on the observed states are evaluated."""
     batches = [(7000000, 300, 400)] if ctx.tier == "quick" else [(7000000, 15000, 400), (8000000, 200, 3000)]
     tot = ev = conf = leaders = 0
-    vev = vsw = vok = venv = vcfgmax = 0
+    vev = vsw = vok = venv = vcfgmax = vlearn = 0
     viol = None
     bi = 0
     for first, count, nev in batches:
@@ -421,6 +421,7 @@ def cc_part(ctx, d):
                     vsw += int(kv["confswitches"])
                     vok += 1
                     venv += int(kv["envelope"])
+                    vlearn += int(kv.get("learners", 0))
                     vcfgmax = max(vcfgmax, int(kv["configs"]))
                 elif t[2] == "FAIL" and dev is None:
                     dev = (t[1], line)
@@ -447,7 +448,7 @@ def cc_part(ctx, d):
                                 with_membership_changes=True, reason=fail_reason(v2), verdict=v2, header=header,
                                 events=shr, trace_tail=trace.splitlines()[-14:],
                                 theorem="(no theorem covers membership change) safety predicates of C15 evaluated on the observed states of the real RawNodes",
-                                note=NOTE + "; CC i code = ProposeConfChange at node i: 100+x add voter x, 110+x remove voter x, 130+10a+b add a / remove b via joint config")
+                                note=NOTE + "; CC i code = ProposeConfChange at node i: 100+x add voter x, 110+x remove voter x, 130+10a+b add a / remove b via joint config, 300+x add learner x (a voter is demoted)")
             if viol is None and dev is not None:
                 # the implementation deviates from the membership-change model, no safety predicate failed
                 kk, line = dev
@@ -463,7 +464,7 @@ def cc_part(ctx, d):
                             with_membership_changes=True, reason=fail_reason(v2), verdict=v2, header=header,
                             events=shr, trace_tail=trace.splitlines()[-12:],
                             theorem="C15_check_step_cc_sound: an accepted step is a step of RaftCC.cxstep (the model of raft WITH membership changes); on this schedule the implementation takes a step that is NOT one.  No safety predicate failed on the observed states of this chunk",
-                            note=NOTE + "; CC i code = ProposeConfChange at node i: 100+x add voter x, 110+x remove voter x, 130+10a+b add a / remove b via joint config")
+                            note=NOTE + "; CC i code = ProposeConfChange at node i: 100+x add voter x, 110+x remove voter x, 130+10a+b add a / remove b via joint config, 300+x add learner x (a voter is demoted)")
             if viol is None:
                 try:
                     (b / "traces.txt").unlink()
@@ -472,6 +473,7 @@ def cc_part(ctx, d):
             k += c
     stats = dict(cc_validated_schedules=vok, cc_validated_events=vev, cc_config_switches_validated=vsw,
                  cc_schedules_inside_proved_envelope=venv, cc_max_distinct_configurations_in_a_schedule=vcfgmax,
+                 cc_learner_schedules_validated=vlearn,
                  cc_schedules=tot, cc_events=ev, cc_conf_changes_committed=conf, cc_terms_with_a_leader=leaders,
                  cc_scope="; ".join("%d schedules x %d events" % (c, n) for _, c, n in batches))
     return stats, viol, None
@@ -479,10 +481,10 @@ def cc_part(ctx, d):
 
 def pv_part(ctx, d):
     """Schedules with Config.PreVote (CheckQuorum in half of them): validated against RaftPV
-    (CheckQuorum angelically) and monitored; those that also call TransferLeader are monitored only."""
+    (CheckQuorum and leadership transfer angelically) and monitored."""
     batches = [(9000000, 250, 400)] if ctx.tier == "quick" else [(9000000, 10000, 400), (9500000, 200, 3000)]
     tot = ev = leaders = 0
-    vok = vev = vpre = vresp = vcq = vsd = vleased = 0
+    vok = vev = vpre = vresp = vcq = vsd = vleased = vtl = vtn = vdrop = 0
     viol = None
     bi = 0
     for first, count, nev in batches:
@@ -516,6 +518,9 @@ def pv_part(ctx, d):
                     vcq += int(kv.get("checkquorum", 0))
                     vsd += int(kv.get("stepdowns", 0))
                     vleased += int(kv.get("leased", 0))
+                    vtl += int(kv.get("transfer", 0))
+                    vtn += int(kv.get("timeoutnow", 0))
+                    vdrop += int(kv.get("dropped", 0))
                 elif t[2] == "FAIL" and dev is None:
                     dev = (t[1], line)
             for line in (b / "monitor.txt").read_text().splitlines():
@@ -565,6 +570,7 @@ def pv_part(ctx, d):
     stats = dict(pv_validated_schedules=vok, pv_validated_events=vev, pv_precandidacies_validated=vpre,
                  pv_prevote_responses_delivered=vresp,
                  pv_checkquorum_schedules_validated=vcq, pv_checkquorum_stepdowns=vsd, pv_checkquorum_vote_requests_ignored_in_lease=vleased,
+                 pv_transfer_schedules_validated=vtl, pv_timeoutnow_delivered=vtn, pv_proposals_dropped_during_transfer=vdrop,
                  pv_schedules=tot, pv_events=ev, pv_terms_with_a_leader=leaders,
                  pv_scope="; ".join("%d schedules x %d events" % (c, n) for _, c, n in batches))
     return stats, viol, None
@@ -646,8 +652,8 @@ def run(ctx):
         membership_change_exploration=dict(
             (k, v) for k, v in stats.items() if k.startswith("cc_")) or None,
         prevote_checkquorum_monitoring=dict((k, v) for k, v in stats.items() if k.startswith("pv_")) or None,
-        prevote_checkquorum_note="schedules with Config.PreVote = true (pre-vote responses are often kept in flight and re-delivered late; small election timeouts in half), half of them with Config.CheckQuorum too: validated event by event against the PreVote model RaftPV.exec_pv by the extracted check_step_pv (sound w.r.t. pxstep; the safety theorems C15_pv_* cover pxreachable) and counted in evaluations.  CheckQuorum is covered ANGELICALLY: a tick may be the leader's step-down (event PvStepDown) and a delivered MsgVote/MsgPreVote may be ignored altogether (leader lease) - the model does not say when (no election clock), so CheckQuorum's liveness is not checked, its safety is (every choice is a step of pxstep).  A third of the CheckQuorum schedules also call TransferLeader: outside the model, MONITORED only (tracepv skips them); the safety predicates are evaluated on the observed states of all schedules (raftrun monitor)",
-        membership_change_note="schedules with ProposeConfChange (add/remove a voter, joint add+remove with automatic leave; applied when committed) are (a) validated event by event against the membership-change model RaftCC.exec_cc by the extracted check_step_cc (exact equality of term/vote/commit/role/lead/log AND of the node's configuration; sound w.r.t. RaftCC.cxstep) — these events are counted in evaluations — and (b) monitored: the safety predicates are evaluated on the observed states.  The SAFETY theorems cover such runs only inside a family of pairwise-intersecting configurations (C15_cc_*_partial); the general chain argument of joint consensus is not proved.  A quarter of the schedules also add learners: outside the model, monitored only (tracecc skips them)",
+        prevote_checkquorum_note="schedules with Config.PreVote = true (pre-vote responses are often kept in flight and re-delivered late; small election timeouts in half), half of them with Config.CheckQuorum too: validated event by event against the PreVote model RaftPV.exec_pv by the extracted check_step_pv (sound w.r.t. pxstep; the safety theorems C15_pv_* cover pxreachable) and counted in evaluations.  CheckQuorum is covered ANGELICALLY: a tick may be the leader's step-down (event PvStepDown) and a delivered MsgVote/MsgPreVote may be ignored altogether (leader lease) - the model does not say when (no election clock), so CheckQuorum's liveness is not checked, its safety is (every choice is a step of pxstep).  A third of the CheckQuorum schedules also call RawNode.TransferLeader: covered angelically too (a leader may send MsgTimeoutNow at any time and may drop a proposal, any node may forward MsgTransferLeader; the receiver of MsgTimeoutNow, if a follower, campaigns for real at once without pre-vote) and validated; the safety predicates are evaluated on the observed states of all schedules (raftrun monitor)",
+        membership_change_note="schedules with ProposeConfChange (add/remove a voter, joint add+remove with automatic leave; applied when committed) are (a) validated event by event against the membership-change model RaftCC.exec_cc by the extracted check_step_cc (exact equality of term/vote/commit/role/lead/log AND of the node's configuration; sound w.r.t. RaftCC.cxstep) — these events are counted in evaluations — and (b) monitored: the safety predicates are evaluated on the observed states.  The SAFETY theorems cover such runs only inside a family of pairwise-intersecting configurations (C15_cc_*_partial); the general chain argument of joint consensus is not proved.  A quarter of the schedules also add learners (ConfChangeAddLearnerNode: fresh learners, later promoted by add-voter, and voters demoted): part of the model (tracked, replicated to, never counted in a quorum) and validated like the others",
         correspondence="(D) quorum.{MajorityConfig,JointConfig}.{CommittedIndex,VoteResult} (built from VERIF_REPO working tree) vs extracted Gallina majority_/joint_ functions, compared on every case; (V) raft.RawNode + MemoryStorage (built from VERIF_REPO) vs extracted check_step on every event",
     ))
     lib.write_evidence(PID, ctx.tier, ctx.seed, cov,
